@@ -411,7 +411,7 @@ def spec_c06_leaves(ctx):
 def sample_structs():
     src = open(os.path.join(VERIF, 'mir', 'derive_samples', 'src', 'lib.rs')).read()
     out = []
-    for m in re.finditer(r'#\[derive\(SystemData\)\]\s*pub struct (\w+)(<[^>{(]*>)?\s*(?:where[^{(]*)?(\{.*?\n\}|\(.*?\);)', src, re.S):
+    for m in re.finditer(r'#\[derive\(SystemData\)\]\s*pub struct (\w+)(<(?:[^<>]|<[^<>]*>)*>)?\s*(?:where[^{(]*)?(\{.*?\n\}|\(.*?\);)', src, re.S):
         name, body = m.group(1), m.group(3)
         if body.startswith('{'):
             fields = [(a.strip(), b.strip()) for a, b in (x.split(':', 1) for x in M.split_top(body[1:-1].strip().rstrip(',')))]
@@ -427,7 +427,7 @@ def sample_structs():
 def spec_c06_derive(ctx):
     fns = ctx.fns('derive')
     structs = sample_structs()
-    ctx.ob('derive', 'sample structs parsed from mir/derive_samples/src/lib.rs', len(structs) >= 7, str([s[0] for s in structs]))
+    ctx.ob('derive', 'sample structs parsed from mir/derive_samples/src/lib.rs', len(structs) >= 9, str([s[0] for s in structs]))
     for name, fields, tuple_like, line in structs:
         key = 'derive-' + name
         by = {}
@@ -1966,3 +1966,81 @@ def spec_insertion_target(ctx):
 
 
 SPECS['C03'] = SPECS['C03'] + [('stage search range', spec_insertion_target)]
+
+
+# ================================================================================================
+# trait default methods and remaining small forwarders
+
+def by_name(ctx, name, kind='default'):
+    l = [f for f in ctx.fns(kind) if f.name == name]
+    if len(l) != 1:
+        raise M.Unsupported('%d functions named %s' % (len(l), name))
+    return l[0]
+
+
+def spec_system_defaults(ctx):
+    key = 'system-defaults'
+    o = straight(ctx, key, by_name(ctx, 'system::System::setup'), 'System::setup (default)')
+    if o:
+        cs = match_calls(ctx, key, 'System::setup (default)', o, [r"^<Self as (system::)?System<'_>>::accessor$", r"SystemData as (system::)?DynamicSystemData<'_>>::setup$"])
+        if cs:
+            ok = ctx.valid('s1', cs[0].args[0] == P(1)) and ctx.valid('s2', cs[1].args[1] == P(2))
+            ctx.ob(key, 'System::setup (default) sets up the system data for this system\'s accessor on the world passed in', ok)
+    outs = ctx.run(by_name(ctx, 'system::System::accessor'))
+    rets = returns(outs)
+    ok = len(rets) == 1 and isinstance(rets[0].value, Agg) and rets[0].value.variant == 'Owned' and [bool(re.search(r'Accessor>::try_new$', e.callee)) for e in sig(rets[0])][:1] == [True]
+    ctx.ob(key, 'System::accessor (default) = Owned(Accessor::try_new().expect(..))', ok, str([show(x)[:160] for x in outs]))
+    for nm in ('system::System::dispose', 'RunNow::dispose'):
+        o = straight(ctx, key, by_name(ctx, nm), nm)
+        if o:
+            ctx.ob(key, '%s (default) does nothing' % nm, not sig(o), show(o)[:200])
+    o = straight(ctx, key, by_name(ctx, 'system::System::running_time'), 'running_time')
+    if o:
+        ctx.ob(key, 'System::running_time (default) is Average', 'Average' in repr(o.value), repr(o.value))
+    outs = ctx.run(ctx.one(r'Deref for AccessorCow', 'deref'))
+    rets = returns(outs)
+    ok = len(rets) == 2 and len(outs) == 2
+    for o in rets:
+        k = [kk for w, kk in o.st.decisions]
+        v = o.value
+        if k and k[0] == 0:
+            ok = ok and ctx.valid('cow ref', to_term(v) == M.f_fld(M.mk_fn('as_Ref', 1)(M.f_deref(P(1))), 0))
+        else:
+            ok = ok and isinstance(v, Ref) and 'Owned' in repr(v.place)
+    ctx.ob(key, 'AccessorCow::deref: Ref(r) -> r, Owned(o) -> &o', ok, str([repr(o.value) for o in rets]))
+
+
+def spec_builder_small(ctx):
+    key = 'builder-small'
+    i_tp = fidx('src/dispatch/builder.rs', 'DispatcherBuilder', 'thread_pool')
+    o = straight(ctx, key, ctx.one(BUILDER, 'with_thread_local'), 'with_thread_local')
+    if o:
+        match_calls(ctx, key, 'with_thread_local', o, [r'DispatcherBuilder::<.*>::add_thread_local::<T>$'])
+    o = straight(ctx, key, ctx.one(BUILDER, 'with_pool'), 'with_pool')
+    if o:
+        match_calls(ctx, key, 'with_pool', o, [r'DispatcherBuilder::<.*>::add_pool$'])
+    outs = ctx.run(ctx.one(BUILDER, 'add_pool'))
+    rets = returns(outs)
+    ok = len(rets) == 1
+    if ok:
+        o = rets[0]
+        cs = sig(o, noise=r'^drop$')
+        wr = [e for e in cs if re.search(r'RwLock::<.*>::write$', e.callee)]
+        dm = [e for e in cs if re.search(r'RwLockWriteGuard<.*> as DerefMut>::deref_mut$', e.callee)]
+        dr = [e for e in cs if re.search(r'^<Arc<std::sync::RwLock<.*>> as Deref>::deref$', e.callee)]
+        ok = len(wr) == 1 and len(dm) == 1 and len(dr) == 1 and ctx.valid('ap1', dr[0].args[0] == self_field(i_tp)) and ctx.valid('ap2', wr[0].args[0] == dr[0].result)
+        v = final_heap(o, M.f_deref(dm[0].result), []) if dm else None
+        ok = ok and isinstance(v, Agg) and v.variant == 'Some' and ctx.valid('ap3', to_term(v.fields[0]) == P(2))
+    ctx.ob(key, 'add_pool stores Some(the given pool) through the write lock of this builder\'s shared pool handle (also seen by batches added before)', ok, str([show(x)[:200] for x in outs][:2]))
+    o = straight(ctx, key, ctx.one(WORLD, 'try_fetch_internal'), 'try_fetch_internal')
+    if o:
+        cs = match_calls(ctx, key, 'try_fetch_internal', o, [r'AHashMap::<.*>::get::<(world::)?ResourceId>$'])
+        if cs:
+            ctx.ob(key, 'try_fetch_internal is a plain lookup in this world', ctx.valid('tfi', cs[0].args[0] == self_field(fidx('src/world/mod.rs', 'World', 'resources'))) and ctx.valid('tfi2', to_term(o.value) == cs[0].result))
+
+
+SPECS['C06'] = SPECS['C06'] + [('trait default methods', spec_system_defaults)]
+SPECS['C13'] = SPECS['C13'] + [('trait default methods', spec_system_defaults), ('setup handlers and leaf setups', spec_c06_leaves)]
+SPECS['C11'] = SPECS['C11'] + [('pool setters', spec_builder_small)]
+SPECS['C12'] = SPECS['C12'] + [('with_thread_local', spec_builder_small)]
+SPECS['C08'] = SPECS['C08'] + [('try_fetch_internal', spec_builder_small)]
